@@ -183,7 +183,7 @@ theorem wait_applies_all {cfg : Cfg} {s0 s2 : State} {t : Tid} {acts : List Acti
   have key : ∃ new', s2.log = new' ++ (stWaitSend cfg s0 t).log ∧
       ((((s2.cl t = .waitBlocked s0.nextMarker ∨ s2.cl t = .waitRecv s0.nextMarker) ∧ .waitRet t ∉ new')) ∨
         s0.nextMarker ∈ s2.closedMarkers) := by
-    refine run_induction (P := fun s => ∃ new', s.log = new' ++ (stWaitSend cfg s0 t).log ∧
+    refine run_induction_f (P := fun s => ∃ new', s.log = new' ++ (stWaitSend cfg s0 t).log ∧
       ((((s.cl t = .waitBlocked s0.nextMarker ∨ s.cl t = .waitRecv s0.nextMarker) ∧ .waitRet t ∉ new')) ∨
         s0.nextMarker ∈ s.closedMarkers)) h1 ?_ ?_ hr
     · refine ⟨[], rfl, Or.inl ⟨?_, by simp⟩⟩
@@ -230,7 +230,7 @@ theorem wait_applies_all {cfg : Cfg} {s0 s2 : State} {t : Tid} {acts : List Acti
           | tick d => simp [Action.owner] at hown
         · -- somebody else's step: `t` stays where it is (or its blocked send completes)
           refine Or.inl ⟨?_, ?_⟩
-          · rcases step_cl (queue_inv hrs) hs t hown with e | ⟨_, e⟩
+          · rcases step_cl_f (queue_inv hrs) hs t hown with e | ⟨_, e⟩
             · rw [e]; exact hpc'
             · rcases hpc' with e1 | e1
               · right; rw [e, e1]; rfl
@@ -297,7 +297,7 @@ theorem del_released {cfg : Cfg} {s0 s2 : State} {t : Tid} {h : Hash} {c : Conf}
   have h1 : Reach cfg (stDelStart s0 t h c) := h0.of_step hstep
   have key : ∃ new', s2.log = new' ++ (stDelStart s0 t h c).log ∧
       ((s2.cl t = .delExit h c (delRemoved s0 h c) ∧ ∀ h', .delRet t h' ∉ new') ∨ .exit (delRemoved s0 h c) ∈ new') := by
-    refine run_induction (P := fun s => ∃ new', s.log = new' ++ (stDelStart s0 t h c).log ∧
+    refine run_induction_f (P := fun s => ∃ new', s.log = new' ++ (stDelStart s0 t h c).log ∧
       ((s.cl t = .delExit h c (delRemoved s0 h c) ∧ ∀ h', .delRet t h' ∉ new') ∨ .exit (delRemoved s0 h c) ∈ new'))
       h1 ?_ ?_ hr
     · exact ⟨[], rfl, Or.inl ⟨stDelStart_pc s0 t h c hc, by simp⟩⟩
@@ -336,7 +336,7 @@ theorem del_released {cfg : Cfg} {s0 s2 : State} {t : Tid} {h : Hash} {c : Conf}
             | _ => simp [Action.owner] at hown
           | tick d => simp [Action.owner] at hown
         · refine Or.inl ⟨?_, ?_⟩
-          · rcases step_cl (queue_inv hrs) hs t hown with e | ⟨hb, _⟩
+          · rcases step_cl_f (queue_inv hrs) hs t hown with e | ⟨hb, _⟩
             · rw [e]; exact hpc'
             · rw [hpc'] at hb; simp [CPc.blocked] at hb
           · intro h' hm
@@ -366,7 +366,7 @@ theorem tomb_released {cfg : Cfg} {s0 s2 : State} {i : Item} {acts : List Action
   have h1 : Reach cfg (apTombPolicy s0 i) := h0.of_step hstep
   have key : ∃ new', s2.log = new' ++ s0.log ∧
       (s2.app = .tombStore (delRemoved s0 i.key i.conflict) ∨ .exit (delRemoved s0 i.key i.conflict) ∈ new') := by
-    refine run_induction (P := fun s => ∃ new', s.log = new' ++ s0.log ∧
+    refine run_induction_f (P := fun s => ∃ new', s.log = new' ++ s0.log ∧
       (s.app = .tombStore (delRemoved s0 i.key i.conflict) ∨ .exit (delRemoved s0 i.key i.conflict) ∈ new')) h1 ?_ ?_ hr
     · exact ⟨[], rfl, Or.inl rfl⟩
     · intro s a s' hrs ⟨new', hl, hp⟩ _ hs
